@@ -615,18 +615,21 @@ class Sym:
         p.effects.append(('write', key, term, block))
 
     def track_mut_borrow(self, p, place, rv):
-        """remember which local a `&mut` temporary borrows from (so that a callee mutating through it
-        invalidates what we know about that local)"""
+        """remember which place a `&mut` temporary borrows from (so that a callee mutating through it
+        invalidates what we know about that place): refroot[tmp] = (root local, field projections)"""
         if place['p']:
             return
         dst = place['l']
         root = None
         if rv['k'] == 'ref' and rv.get('mut'):
             src = rv['place']
-            if '*' not in [e for e in src['p'] if isinstance(e, str)]:
-                root = src['l']
+            if not any(e == '*' for e in src['p']):
+                if all(isinstance(e, dict) and ('f' in e or 'dc' in e) for e in src['p']):
+                    root = (src['l'], tuple(json.dumps(e, sort_keys=True) for e in src['p']))
             else:
-                root = p.refroot.get(src['l'])
+                # reborrow through an existing &mut temporary: `&mut (*_q)` keeps _q's root
+                if src['p'] == ['*']:
+                    root = p.refroot.get(src['l'])
         elif rv['k'] == 'use' and rv['op']['k'] in ('move', 'copy') and not rv['op']['place']['p']:
             root = p.refroot.get(rv['op']['place']['l'])
         if root is not None:
@@ -638,10 +641,25 @@ class Sym:
         for i, a in enumerate(t['args']):
             if a['k'] in ('move', 'copy') and not a['place']['p']:
                 root = p.refroot.get(a['place']['l'])
-                if root is not None:
-                    old = self.local_term(p, root)
+                if root is None:
+                    continue
+                rl, proj = root
+                others = tuple(x for j, x in enumerate(args) if j != i)
+                if not proj:
+                    old = self.local_term(p, rl)
                     # ('mutated', previous value, callee, other argument terms, site)
-                    p.env[root] = ('mutated', old, path, tuple(x for j, x in enumerate(args) if j != i), block)
+                    p.env[rl] = ('mutated', old, path, others, block)
+                else:
+                    place = {'l': rl, 'p': [json.loads(e) for e in proj]}
+                    saved = p.store
+                    p.store = {}
+                    key = self.place_term(p, place)
+                    p.store = saved
+                    old = p.store.get(key, key)
+                    for k in list(p.store.keys()):
+                        if term_contains(k, key):
+                            del p.store[k]
+                    p.store[key] = ('mutated', old, path, others, block)
 
     def kill_mut_args(self, p, args):
         for a in args:
@@ -1218,3 +1236,27 @@ def coroutine_param_env(body):
             if pl['l'] == 1 and len(pl['p']) == 1 and isinstance(pl['p'][0], dict) and 'f' in pl['p'][0]:
                 env[s['place']['l']] = ('param', pl['p'][0]['f'] + 1, pl['p'][0]['n'])
     return env
+
+
+def select_source(t):
+    """for a value taken from the output of a tokio::select!: the future of the branch it came from.
+    Shape: ((await(poll_fn(closure[.., &mut (fut0, fut1, ..)])) as _k).0 ..) -> fut_k (into_future stripped)"""
+    import re as _re
+    for x in term_walk(t):
+        if isinstance(x, tuple) and x and x[0] == 'downcast' and isinstance(x[1], tuple) and x[1][0] == 'await':
+            m = _re.match(r'^_(\d+)$', str(x[2]))
+            if not m:
+                continue
+            k = m.group(1)
+            for y in term_walk(x[1]):
+                if isinstance(y, tuple) and y and y[0] == 'closure':
+                    for cap in y[2]:
+                        c = cap
+                        while isinstance(c, tuple) and c[0] in ('ref', 'deref'):
+                            c = c[1]
+                        if isinstance(c, tuple) and c[0] == 'agg' and c[1] == 'tuple' and k in c[2]:
+                            f = c[2][k]
+                            while isinstance(f, tuple) and f[0] == 'call' and f[1].endswith('into_future'):
+                                f = f[2][0]
+                            return f
+    return None
